@@ -633,7 +633,11 @@ func lifecycleCase(r *rand.Rand, idx int) caseOut {
 			updKey = next
 		}
 	}
-	doUpdates(r.Intn(3))
+	nFirst := r.Intn(3)
+	if zeroLead && nFirst == 0 { // the update key with the short coordinate is used at least once, whatever is drawn
+		nFirst = 1
+	}
+	doUpdates(nFirst)
 	// recover
 	{
 		nextRec, nextUpd := genKey(r, opKind), genKey(r, opKind)
@@ -689,7 +693,7 @@ func lifecycleCase(r *rand.Rand, idx int) caseOut {
 		recKey, updKey = nextRec, nextUpd
 	}
 	doUpdates(r.Intn(3))
-	deactivate_ := r.Intn(3) != 0
+	deactivate_ := r.Intn(3) != 0 || zeroLead // (... and so is the recovery key installed by the recover)
 	if deactivate_ {
 		t += uint64(1 + r.Intn(100))
 		var dFrom, dUntil int64
